@@ -326,3 +326,97 @@ func ruleWebsocketServerProtocols(c *Ctx, r string) {
 			"the serializer given to the peer can be "+strings.Join(bad, ", ")+", which is not selected by a sub-protocol (an unset value is nil: the peer's handlers call it and panic, or frames are exchanged in a format the client never agreed to)")
 	}
 }
+
+// ruleCompletionSignalled: an action closure that signals its completion by closing a captured channel does so on
+// every path — the poster waits on that channel (the meta procedure handler, AddRealm/RemoveRealm, Close), so one path
+// without the close blocks the poster for ever.
+func ruleCompletionSignalled(c *Ctx, rule string) {
+	n := 0
+	for _, fn := range c.P.FuncsIn("router") {
+		if fn.Parent() == nil {
+			continue
+		}
+		seen := map[string]bool{}
+		for _, in := range matches(fn, `^call:builtin:close\(\^\w+\)$`) {
+			d := ir.InstrDesc(in)
+			if seen[d] {
+				continue
+			}
+			seen[d] = true
+			call, ok := in.(*ssa.Call)
+			if !ok {
+				continue // a deferred close runs on every exit
+			}
+			fv, ok := call.Call.Args[0].(*ssa.FreeVar)
+			if !ok {
+				// captured by reference: the load of the free variable
+				if u, ok2 := call.Call.Args[0].(*ssa.UnOp); ok2 {
+					fv, ok = u.X.(*ssa.FreeVar)
+				}
+				if !ok {
+					continue
+				}
+			}
+			_ = fv
+			n++
+			ch := strings.TrimSuffix(strings.TrimPrefix(d, "call:builtin:close("), ")")
+			c.Reach(rule, ir.ShortName(fn), "completion channel "+ch+" closed (or sent on) on every path", ReachSpec{Stop: "^" + q(d) + "$|^send:" + q(ch) + "<-", Target: "EXIT", Want: false})
+		}
+	}
+	c.R.Check(n >= 15, rule, "router", "action closures with a completion channel enumerated", "-", fmt.Sprintf("found %d, 23 confirmed by reading (floor 15)", n))
+}
+
+// ruleQueueDefault: a listener's unset (zero) outbound queue size is replaced by the default before the peer is
+// built, in the accept path itself (the field is public and may be assigned after construction), so every
+// transport's session has a buffered outbound queue like the in-process one.
+func ruleQueueDefault(c *Ctx, rule string) {
+	for _, x := range []struct{ fn, callee string }{
+		{"router.(*RawSocketServer).handleRawSocket", `^call:transport\.AcceptRawSocket\(`},
+		{"router.(*WebsocketServer).handleWebsocket", `^call:transport\.NewWebsocketPeer\(`}} {
+		fn := c.Fn(rule, x.fn)
+		if fn == nil {
+			continue
+		}
+		calls := matches(fn, x.callee)
+		if len(calls) == 0 {
+			c.R.Unknown(rule, x.fn, "peer construction", c.P.FuncPos(fn), "no call matching "+x.callee)
+			continue
+		}
+		for _, in := range calls {
+			found := false
+			for _, a := range in.(*ssa.Call).Call.Args {
+				var leaves []ssa.Value
+				phiLeaves(a, map[ssa.Value]bool{}, &leaves)
+				hasField, hasDefault := false, false
+				for _, l := range leaves {
+					d := ir.Desc(l)
+					if strings.HasSuffix(d, ".OutQueueSize") {
+						hasField = true
+					} else if k, ok := l.(*ssa.Const); ok && k.Value != nil && ir.ConstStr(k) != "0" {
+						hasDefault = true
+					}
+				}
+				if !hasField {
+					continue
+				}
+				found = true
+				tested, _ := ir.GuardedBy(fn, in, clause("queue size tested for zero", T(`^\(%s\.OutQueueSize (==|<) [01]\)$`), F(`^\(%s\.OutQueueSize (==|<) [01]\)$`), T(`^\(0 < %s\.OutQueueSize\)$`), F(`^\(0 < %s\.OutQueueSize\)$`)))
+				c.R.Check(hasDefault && tested, rule, x.fn, "zero outbound queue size replaced by the default before the peer is built", c.pos(in),
+					"the configured OutQueueSize reaches the peer constructor without a zero test and default in this function: a server whose field is (left or set to) 0 gives its sessions an unbuffered outbound queue and the router's non-blocking sends drop their messages")
+			}
+			if !found {
+				c.R.Unknown(rule, x.fn, "zero outbound queue size replaced by the default before the peer is built", c.pos(in), "no argument of the peer constructor derives from OutQueueSize")
+			}
+		}
+	}
+}
+
+// ruleClientLoggerDefault: ConnectNet never hands a nil logger to a transport (the transports log from their own
+// goroutines without a nil test: a nil logger turns every logged protocol error into a crash of the process).
+func ruleClientLoggerDefault(c *Ctx, rule string) {
+	cn := "client.ConnectNet"
+	isNil := clause("no logger configured", T(`^\(%cfg\.Logger == nil\)$`))
+	c.Reach(rule, cn, "a missing logger is replaced before a transport is created", ReachSpec{FromEdge: &isNil,
+		Stop: `^store:&local:cfg\.&Logger=call:log\.New\(`, Target: `^call:transport\.Connect(Websocket|RawSocket)Peer\(`, Want: false})
+	c.Has(rule, cn, "transports get the configured logger", `^call:transport\.Connect(Websocket|RawSocket)Peer\(.*%cfg\.Logger`, 3)
+}
